@@ -113,6 +113,15 @@ var c09Values = []c09Shape{
 	{Name: "HTTPS2", Value: "NOERROR;HTTPS;1 . alpn=h2", RCode: "NOERROR", RR: "HTTPS", Val: "1 . alpn=h2"},
 	{Name: "SVCB", Value: "NOERROR;SVCB;1 svc.example.net", RCode: "NOERROR", RR: "SVCB", Val: "1 svc.example.net"},
 	{Name: "PTR", Value: "NOERROR;PTR;ptr.example.net.", RCode: "NOERROR", RR: "PTR", Val: "ptr.example.net."},
+	// Structured values that differ in one sub-field only.
+	{Name: "HTTPSx", Value: "NOERROR;HTTPS;1 . alpn=h3 port=8443", RCode: "NOERROR", RR: "HTTPS", Val: "1 . alpn=h3 port=8443"},
+	{Name: "HTTPS0", Value: "NOERROR;HTTPS;1 .", RCode: "NOERROR", RR: "HTTPS", Val: "1 ."},
+	{Name: "SVCB0", Value: "NOERROR;SVCB;2 .", RCode: "NOERROR", RR: "SVCB", Val: "2 ."},
+	{Name: "SVCB0p", Value: "NOERROR;SVCB;2 . alpn=h2", RCode: "NOERROR", RR: "SVCB", Val: "2 . alpn=h2"},
+	{Name: "SRV2", Value: "NOERROR;SRV;1 2 81 srv.example.net", RCode: "NOERROR", RR: "SRV", Val: "1 2 81 srv.example.net"},
+	{Name: "MX3", Value: "NOERROR;MX;10 mail2.example.net", RCode: "NOERROR", RR: "MX", Val: "10 mail2.example.net"},
+	{Name: "TXT3", Value: "NOERROR;TXT;hello2", RCode: "NOERROR", RR: "TXT", Val: "hello2"},
+	{Name: "AAAA2", Value: "NOERROR;AAAA;::2", RCode: "NOERROR", RR: "AAAA", Val: "::2"},
 	// Record types without a value parser: the type is kept, the value is nil.
 	{Name: "NS", Value: "NOERROR;NS;ns1.example.net", RCode: "NOERROR", RR: "NS", Val: ""},
 	{Name: "SOA", Value: "NOERROR;SOA;whatever", RCode: "NOERROR", RR: "SOA", Val: ""},
@@ -450,8 +459,12 @@ func init() {
 				pool := c09Full
 				if c.Rng.Intn(3) > 0 {
 					pool = nil
+					fam := [][]string{{"HTTPS", "HTTPSx", "HTTPS0", "HTTPS2"}, {"SVCB", "SVCB0", "SVCB0p"}, {"MX", "MX2", "MX3"}, {"SRV", "SRV2"}, {"TXT", "TXT2", "TXT3"}, {"A1", "A2", "A1full"}, {"AAAA", "AAAA2"}, {"NS", "SOA", "NOERRORkw"}}[c.Rng.Intn(8)]
 					for j := 0; j < 3+c.Rng.Intn(3); j++ {
 						v := util.Pick(c.Rng, c09Values).Name
+						if c.Rng.Intn(2) == 0 {
+							v = fam[c.Rng.Intn(len(fam))]
+						}
 						for _, e := range []bool{false, true} {
 							if e && v == "NOERRORkw" {
 								continue
